@@ -2,7 +2,7 @@ use crate::{interner::TypeNodeId, types::TypeSize, utils::half_float::HFloat};
 
 pub type Reg = u16; // register position
 pub type ConstPos = u16;
-pub type GlobalPos = u8;
+pub type GlobalPos = u16;
 pub type Offset = i16;
 pub type ShotrOffset = i8;
 pub type TypeTableIndex = u8;
